@@ -165,11 +165,13 @@ def coq_build_prop(pid, timeout, allowed_axioms):
             cur = []
             blocks.append(cur)
         elif cur is not None:
-            m = re.match(r"^(\S+)\s*:", line)
-            if m and not line.startswith(" "):
-                cur.append(m.group(1))
-            elif not line.startswith(" ") and line.strip() and not m:
-                cur = None
+            # one axiom per non-indented line `name : type` (the type may start on the next, indented line)
+            if line and not line[0].isspace():
+                m = re.match(r"^([A-Za-z_][\w.']*)\s*(:|$)", line)
+                if m:
+                    cur.append(m.group(1))
+                else:
+                    cur = None
     used = sorted({a for b in blocks for a in b})
     bad_ax = [a for a in used if a not in allowed_axioms]
     discharged = len(blocks) if rc == 0 else min(len(blocks), len(theorems))
